@@ -417,11 +417,29 @@ def d2_sort_table(chk, prog):
     import random
     rnd = random.Random(5)
     orders = [list(range(len(base))), list(range(len(base)))[::-1]] + [rnd.sample(range(len(base)), len(base)) for _ in range(6)]
-    rank = {"chr1": 1, "chr2": 2, "chr10": 10, "chrX": 1000, "chrM": 2000}
+    rank = {"chr1": (1, ""), "chr2": (2, ""), "chr10": (10, ""), "chrX": (1000, "X"), "chrM": (2000, "M")}
     # an input already in alphabetical chromosome order (chr1, chr10, chr2, chrM, chrX: `sort -k1,1 -k2,2n`) is not in natural order; one already in natural order stays
     orders.append(sorted(range(len(base)), key=lambda i: base[i]))
     orders.append(sorted(range(len(base)), key=lambda i: (rank[base[i][0]],) + base[i][1:]))
-    for order in orders:
+    def natkey(label):
+        """the documented chromosome order, transcribed: `chr` prefix dropped; X, Y after the numbered ones; a leading number first, then the rest of the name as a string
+        (one extra letter: 2000 + number; a longer suffix -- random / Un / alt / hap contigs: 3000 + number, ordered by the whole suffix)"""
+        c = label[3:] if label.lower().startswith("chr") else label
+        if c in ("X", "Y"):
+            return (1000, c)
+        i = 0
+        while i < len(c) and c[i].isdigit():
+            i += 1
+        n_, rest = (int(c[:i]) if i else 0), c[i:]
+        return (n_, "") if not rest else ((2000 + n_, rest) if len(rest) == 1 else (3000 + n_, rest))
+    rank = {name: natkey(name) for name, _s, _e in base}
+    cases = [(base, order) for order in orders]
+    # unplaced / random / alternative contigs whose names differ only after a digit inside the suffix: each keeps its own place (rows of two such contigs never interleave)
+    alt = [("chrUn_gl000212", 0, 10), ("chrUn_gl000211", 5, 8), ("chr1_gl000191_random", 0, 5), ("chr1", 3, 4), ("chrUn_gl000212", 20, 30), ("chrUn_gl000211", 0, 3), ("chr6_apd_hap1", 1, 2),
+           ("chr1_gl000192_random", 0, 9), ("chr1_gl000191_random", 7, 8)]
+    rank.update({name: natkey(name) for name, _s, _e in alt})
+    cases += [(alt, list(range(len(alt)))), (alt, list(range(len(alt)))[::-1]), (alt, rnd.sample(range(len(alt)), len(alt)))]
+    for base, order in cases:
         W.reset()
         rows = [dict(chromosome=base[i][0], start=base[i][1], end=base[i][2], gene="-", rowid=k) for k, i in enumerate(order)]
         g = make_ga("GenomicArray", rows, {}, index="any", exact=True, labels=[50 - k for k in range(len(rows))])
